@@ -101,6 +101,23 @@ impl Ctx {
                 let mut c = self.clone_for_wire();
                 c.wire(&atom[1])
             }
+            // expression layer: deterministic tagged values
+            "fn" | "param" => {
+                let tagn = if tag_of(atom) == "fn" { 40006 } else { 40007 };
+                let inner = if atom[1].as_str() == Some("k") { w::uint(atom[2].as_u64().unwrap_or(0)) } else { w::text(atom[2].as_str().unwrap_or("")) };
+                Ok(w::tag(tagn, &inner))
+            }
+            "reqid" | "respid" | "evid" => {
+                let tagn = match tag_of(atom) { "reqid" => 40004, "respid" => 40005, _ => 40026 };
+                let arid = [atom[1].as_u64().unwrap_or(0) as u8; 32];
+                Ok(w::tag(tagn, &w::tag(40012, &w::bytes(&arid))))
+            }
+            "respunknown" => Ok(w::tag(40005, &w::tag(40000, &w::uint(atom[1].as_u64().unwrap_or(0))))),
+            "date" => Ok(w::tag(1, &match atom[1].as_str().unwrap_or("") {
+                "int" => w::uint(1_700_000_000),
+                "frac" => w::f16_bits(0x3800),
+                _ => w::nint(-86400),
+            })),
             "cborhex" => hex::decode(atom[1].as_str().unwrap()).map_err(|e| EvalError(e.to_string())),
             // opaque values produced by the library (salt, signature, sealed message,
             // SSKR share...): bound to their real bytes at first sight
